@@ -27,6 +27,7 @@ import (
 	"github.com/olric-data/olric/internal/protocol"
 	"github.com/olric-data/olric/internal/resp"
 	"github.com/olric-data/olric/internal/stats"
+	"github.com/olric-data/olric/internal/verifhook"
 	"github.com/olric-data/olric/pkg/storage"
 	"github.com/redis/go-redis/v9"
 )
@@ -193,6 +194,12 @@ func (dm *DMap) syncPutOnCluster(e *env, nt storage.Entry) error {
 			continue
 		}
 		successful++
+		if verifhook.Enabled {
+			verifhook.Point("put.afterBackup", dm.s.rt.This().String(), e.key, owner.String())
+		}
+	}
+	if verifhook.Enabled {
+		verifhook.Point("put.beforeLocal", dm.s.rt.This().String(), e.key)
 	}
 	err := dm.putEntryOnFragment(e, nt)
 	if err != nil {
@@ -303,6 +310,9 @@ func (dm *DMap) putOnCluster(e *env) error {
 
 	if err = dm.checkPutConditions(e); err != nil {
 		return err
+	}
+	if verifhook.Enabled {
+		verifhook.Point("put.afterCheck", dm.s.rt.This().String(), e.key)
 	}
 
 	if dm.config != nil {
